@@ -58,6 +58,9 @@ CLAIMED = {
  'C19': ('PBT: one AST rendered twice (canonical fully parenthesised vs. random constructor/operator spellings, signs, separators, comments, line breaks, quotes, MINIMAL parentheses, bare start expression); differential between the renderings + reference interpreter on the AST',
          'Generated-input search: rich, core and grouping-focused ASTs (all binary operators of every precedence level mixed with postfix forms) are rendered canonically and with every documented alternative spelling and layout drawn at random, including minimal parenthesisation computed from the precedence table of the statement; both descriptions must compile and agree on every entry and all inputs of length <= 4 plus longer ones, and the reference interpreter evaluated on the AST must agree too, so the two renderings cannot agree on a wrong grouping.',
          'Constructor forms never get bare inline-Python operands (documented exception); let is always parenthesised.'),
+ 'C20': ('PBT: exhaustive role x suspicious-name matrix (names harvested from the generated module itself, temporaries, builtins, runtime globals, constructor names, DSL words) + hypothesis random grammars x random injective renamings; rename relation on the AST (inline Python renamed by tokenising)',
+         'Enumerated + generated search: each of 13 name roles of a feature-rich grammar is renamed to each of ~500 suspicious identifiers - every identifier that occurs in the module generated for that grammar (so new temporaries/helpers are tried automatically), every temporary base with suffix 0-6, every builtin, every runtime global, every sourcer.expressions attribute, DSL words - and outcomes on 10 inputs must equal the unrenamed ones up to the renaming; the pairs that fail on the pinned tree are the known findings F21a-g (committed pair list) and every other failing pair is a violation. Hypothesis renames ALL names of random rich grammars at once into neutral and look-alike names (named and unnamed modules).',
+         'The property does not hold in seven families on the pinned tree (F21a-g, recorded, witnesses replayed); names start with a letter, are not keywords nor documented API names.'),
 }
 
 checks = []
